@@ -11,6 +11,7 @@
 -/
 import EnrVerif.Model.Schemes
 import EnrVerif.Model.Mutators
+import EnrVerif.Model.Spec
 import EnrVerif.Model.Text
 import EnrVerif.Model.NodeId
 
@@ -596,8 +597,47 @@ def handleBuild (d : DS) (s : St) (t : Toks) (o : Toks) (rec : Option Obs) : St 
         (if resKind res == resKind mres then s else s.prop "C09" "builder_refusal_matches_size_rule" s!"model={mres} impl={res}")
       else s
     match mrec, rec with
-    | some r, some ob => cmpRec s "build" r ob
+    | some r, some ob =>
+      let s := cmpRec s "build" r ob
+      if showPairs r.content == showPairs ob.pairs then s
+      else s.prop "C08" "built_pairs_are_builder_pairs_plus_id_and_key" s!"want={showPairs r.content} got={showPairs ob.pairs}"
     | _, _ => s
+
+/-- The error kinds an update may report (C08: "when several causes apply, any of them"): every
+    cause is evaluated on its own, whatever the order in which the code checks them. -/
+def admissibleErrs (d : DS) (r : Record) (op : Op d.S) (pk : d.S.PK) (oracle : Option Bytes) (failInjected : Bool) :
+    List String :=
+  let S := d.S
+  let seqMax := if op.isSetSeq then [] else if r.seq + 1 < 2 ^ 64 then [] else ["SequenceNumberTooHigh"]
+  let fault := if failInjected then ["SigningError"] else []
+  -- value errors of every pair / value handed in
+  let valueErrs : List String := match op with
+    | .insertRaw k raw => (match checkReserved k raw with | .error e => [enrErrStr e] | .ok _ => [])
+    | .insert k v => (match checkReserved k v.enc with | .error e => [enrErrStr e] | .ok _ => [])
+    | .removeInsert _ ins => ins.filterMap fun (k, v) =>
+        if k = kId ∧ v ≠ vV4 then some "UnsupportedIdentityScheme"
+        else match checkReserved k (encBytes v) with | .error e => some (enrErrStr e) | .ok _ => none
+    | _ => []
+  if !valueErrs.isEmpty then valueErrs ++ seqMax ++ fault
+  else
+    -- evaluate every cause on its own: with and without the pre-sign size check, at the real
+    -- sequence number and just below the maximum (same encoded length)
+    let rLow : Record := if r.seq + 1 < 2 ^ 64 then r else { r with seq := r.seq - 1 }
+    let errOf (x : Except EnrErr Prepared) : List String := match x with
+      | .error e => [enrErrStr e]
+      | .ok _ => []
+    let pre := errOf (prepareG S r op pk false) ++ errOf (prepareG S r op pk true) ++
+      errOf (prepareG S rLow op pk false) ++ errOf (prepareG S rLow op pk true)
+    let final := match prepareG S rLow op pk false with
+      | .ok p =>
+        let sg := match oracle with
+          | some g => g
+          | none => r.sig
+        let n : Record := { p.enr with sig := sg, nodeId := nodeIdOf S pk }
+        (if n.size > MAX_ENR_SIZE then ["ExceedsMaxSize"] else []) ++
+          (if oracle.isNone then ["SigningError"] else [])
+      | .error _ => []
+    pre ++ final ++ seqMax ++ fault
 
 /-- one `step` with its `out` and `rec` lines -/
 def handleStep (d : DS) (s : St) (t : Toks) (o : Toks) (after : Obs) : St :=
@@ -637,10 +677,24 @@ def handleStep (d : DS) (s : St) (t : Toks) (o : Toks) (after : Obs) : St :=
       let role := if signer == 0 then "own" else if signer == 1 then "other" else "third"
       let s := s.cov s!"step/{d.name}/{opn}/{resKind res}/{role}/{tget t "fail"}"
       let s := s.cmp "step.res" (resKind mres) (resKind res)
+      -- C08: the reported error kind matches one of the causes that apply; success only without a cause
+      let adm := admissibleErrs d r op pk oracle (tget t "fail" == "1")
+      let s := if resClass res == "err" then
+          (if adm.contains (resKind res) then s.chk
+           else s.prop "C08" "error_kind_matches_a_cause" s!"op={opn} impl={resKind res} admissible={adm}")
+        else if resClass res == "ok" && resClass mres == "err" then
+          s.prop "C08" "call_with_a_failure_cause_is_refused" s!"op={opn} model={mres}"
+        else s
       let s := match mo with
-        | .ok ret => if resClass res == "ok" then s.cmp "step.ret" (retStr ret) (tget o "ret") else s
+        | .ok ret =>
+          if resClass res == "ok" then
+            (if retStr ret == tget o "ret" then s.chk
+             else (s.diff "step.ret" (retStr ret) (tget o "ret")).prop "C08" "returns_previous_values" s!"op={opn} want={retStr ret} got={tget o "ret"}")
+          else s
         | _ => s
       let s := cmpRec s "step" mr after
+      let s := if showPairs mr.content == showPairs after.pairs then s
+        else s.prop "C08" "pairs_are_those_of_the_sorted_map_model" s!"op={opn} want={showPairs mr.content} got={showPairs after.pairs}"
       -- C06: failed update leaves the record untouched
       let s := if resClass res != "ok" then
           (if obsEq before after then s.chk else s.prop "C06" "failed_update_unchanged" s!"op={opn} res={res}")
